@@ -630,19 +630,23 @@ public:
   virtual void array_assign(const variable_t &lhs,
                             const variable_t &rhs) override {
 
+    if (lhs == rhs) {
+      return;
+    }
+
     bytes_t size = get_size(rhs);
+    // The old contents of lhs are overwritten
+    this->operator-=(lhs);
     if (size.is_constant()) {
       set_size(lhs, size.get_constant());
       variable_t scalar_lhs(mk_scalar_var(lhs, size.get_constant()));
       variable_t scalar_rhs(mk_scalar_var(rhs, size.get_constant()));
-
-      auto ty = scalar_lhs.get_type();
-      if (ty.is_bool()) {
-        m_base_dom.assign_bool_var(scalar_lhs, scalar_rhs, false);
-      } else {
-        assert(ty.is_integer() || ty.is_real());
-        m_base_dom.assign(scalar_lhs, scalar_rhs);
-      }
+      // scalar_rhs is a summarized variable. We cannot use assign
+      // because a relational domain would infer scalar_lhs ==
+      // scalar_rhs which only holds if the array has one element.
+      // Instead, scalar_lhs inherits all the constraints of scalar_rhs.
+      m_base_dom -= scalar_lhs;
+      m_base_dom.expand(scalar_rhs, scalar_lhs);
     }
   }
 
